@@ -444,7 +444,18 @@ CONST_SORTS = (BOOL, INT, REAL, STRING, BV2, BV3)
 INDEX_POOL = {INT: [("Int", i) for i in range(5)],
               REAL: [("Real", Fraction(0)), ("Real", Fraction(1, 2)), ("Real", Fraction(2))],
               BV2: [("BV", i, 2) for i in range(4)]}
-RAWTYPE = {BOOL: bool, INT: int, REAL: Fraction, STRING: str}
+
+
+def _raw_ok(sort, v):
+    """the Python type of a constant's value: bool / the library's Integer / Fraction class / str"""
+    from pysmt.constants import is_pysmt_fraction, is_pysmt_integer
+    if sort == BOOL:
+        return type(v) is bool
+    if sort == STRING:
+        return type(v) is str
+    if sort == REAL:
+        return is_pysmt_fraction(v)
+    return is_pysmt_integer(v) or type(v) is int
 
 
 def audit_node(W, n, k, memo):
@@ -489,8 +500,7 @@ def audit_node(W, n, k, memo):
             return ("type-object", "%s carries the type object %s that is not its environment's" % (kshort(k), ty))
     if h == "const":
         v = n.constant_value()
-        raw = RAWTYPE.get(k[1], int)
-        if type(v) is not raw:
+        if not _raw_ok(k[1], v):
             return ("constant_value", "constant_value() of %s is %r of type %s" % (kshort(k), v, type(v).__name__))
         if sort_of(n.constant_type()) != k[1]:
             return ("constant_type", "constant_type() of %s is %s" % (kshort(k), n.constant_type()))
